@@ -1192,10 +1192,15 @@ static int inline setup_dynamic_header(struct inflate_state *state)
                                                             0x0b, 0x04, 0x0c, 0x03, 0x0d,
                                                             0x02, 0x0e, 0x01, 0x0f };
 
-        /* If you are given a whole header and it matches the pregen header */
+#if (IGZIP_HIST_SIZE > 8192) && !defined(LONGER_HUFFTABLE)
+        /* If you are given a whole header and it matches the pregen header. The
+         * pre-generated decode tables in static_inflate.h belong to the default
+         * hufftables of the default (large window) configuration only; builds
+         * that select other default hufftables must decode the header. */
         if (state->avail_in > (hufftables_default.deflate_hdr_count + sizeof(uint64_t)) &&
             header_matches_pregen(state))
                 return setup_pregen_header(state);
+#endif
 
         if (state->bfinal && state->avail_in <= SINGLE_SYM_THRESH) {
                 multisym = SINGLE_SYM_FLAG;
